@@ -1243,6 +1243,7 @@ def fail_events(model: TopoModel):
                     ev.append(('fail', 'connect-bad', s, why, b))
         for s_ in tops[:1]:
             ev.append(('fail', 'peer-self', s_))
+            ev.append(('fail', 'connect-derived-name-too-long', s_))
         if len(tops) >= 2:
             ev.append(('fail', 'peer-stale-service', tops[0], tops[1]))
         if 's1' in tops and 's2' in tops:
@@ -1387,6 +1388,12 @@ def _do_fail(model: TopoModel, ev):
         else:
             _, _, s, why, b = ev
             model.service(s).connect_interface(resolve(why, b))
+    elif kind == 'connect-derived-name-too-long':
+        # legitimate prefix: a node with a long (valid) name and a NIC; connecting its port derives names beyond the limit
+        n = t.add_node(name='n' * 246, site='S1')
+        c = n.add_component(name='cl', model_type=ComponentModelType.SharedNIC_ConnectX_6)
+        model._prefix_ok = True
+        model.service(ev[2]).connect_interface(list(c.interface_list)[0])
     elif kind == 'peer-self':
         a = model.service(ev[2])
         a.peer(a)
@@ -1599,6 +1606,9 @@ def _after_prefix(self, ev):
         self.service(ev[2]).peer(self.service(ev[3]))
     elif ev[1] == 'peer-stale-service':
         self.t.remove_network_service(ev[3])
+    elif ev[1] == 'connect-derived-name-too-long':
+        n = self.t.add_node(name='n' * 246, site='S1')
+        n.add_component(name='cl', model_type=ComponentModelType.SharedNIC_ConnectX_6)
     elif ev[1] == 'sub-duplicate-via-second-handle':
         sub = self.flavour != 'exp'
         self.port(*ev[2]).add_child_interface(name='subD', node_id='id-subD-1' if sub else None, labels=Labels(vlan='310'))
